@@ -63,8 +63,72 @@ def run(ctx):
                       "%s folds the unit text without the unit-symbol exception: 'M' and 'm' (mega/milli) become the same unit" % f.short,
                       desc="%s applies the unit-symbol exception to the folded probe" % f.short)
 
-    # ---------------- R11.2
+    # ---------------- R11.3: number/unit order is tied to the unit's prefix attribute in both directions
+    ctx.rule("R11.3", "`<number> <unit>` is accepted only for non-prefix units and `<unit> <number>` only for prefix units")
     tag = prog.find_class("HedTag")
+    gup = tag.methods.get("_get_tag_units_portion")
+    if gup is None:
+        raise AnalysisError("anchor HedTag._get_tag_units_portion vanished")
+    ctx.saw(gup)
+    from sa.dom import view
+    vg = view(ctx, gup)
+    rets = [n for n in vg.cfg.nodes if n.kind == "stmt" and isinstance(n.ast, ast.Return) and isinstance(n.ast.value, ast.Tuple)
+            and not all(isinstance(e, ast.Constant) and e.value is None for e in n.ast.value.elts)]
+    ctx.floor("R11.3", "accepting returns in _get_tag_units_portion", len(rets), 2)
+    pol = []
+    from sa.null import parent_map
+    pm = parent_map(gup.node)
+    for r in rets:
+        # the innermost `if` around the return must be the one that tests the unitPrefix attribute
+        cur, enclosing, in_body = r.ast, None, True
+        while id(cur) in pm:
+            par = pm[id(cur)]
+            if isinstance(par, ast.If):
+                enclosing = par
+                in_body = any(cur is x for x in par.body)
+                break
+            cur = par
+        has = enclosing is not None and any(isinstance(x, ast.Attribute) and x.attr == "UnitPrefix" for x in ast.walk(enclosing.test))
+        if not has:
+            ctx.violation("R11.3", gup.qualname, r.ast, loc(gup, r.ast),
+                          "this accepting return is not directly guarded by a test of the unit's unitPrefix attribute: a unit is "
+                          "accepted on the wrong side of the number (e.g. `Distance/cm 3`)")
+            continue
+        negated = any(isinstance(x, ast.UnaryOp) and isinstance(x.op, ast.Not) and "UnitPrefix" in norm(x.operand)
+                      for x in ast.walk(enclosing.test))
+        required = in_body != negated
+        pol.append(required)
+        ctx.ok("R11.3", "return `%s` requires unitPrefix=%s" % (norm(r.ast.value)[:40], required), loc(gup, r.ast))
+    if len(pol) >= 2:
+        ctx.check(True in pol and False in pol, "R11.3", gup.qualname, "complementary unitPrefix tests", loc(gup, gup.node),
+                  "the two accepting branches do not test the unitPrefix attribute with opposite polarity", desc="branches are complementary")
+
+    # ---------------- R11.4: every conversion-factor text is parsed the same way
+    ctx.rule("R11.4", "unit and prefix conversion factors are read and normalised by the same chain before float()")
+    gcf = ue.methods.get("_get_conversion_factor")
+    if gcf is None:
+        raise AnalysisError("anchor UnitEntry._get_conversion_factor vanished")
+    ctx.saw(gcf)
+    floats = [c for c in walk_no_nested(gcf.node) if isinstance(c, ast.Call) and isinstance(c.func, ast.Name) and c.func.id == "float"
+              and c.args and "ConversionFactor" in norm(c.args[0])]
+    ctx.floor("R11.4", "float() parses of a conversionFactor", len(floats), 2)
+
+    def chain(e):
+        """method-call chain applied to the attribute text, innermost first, with constant arguments"""
+        out = []
+        while isinstance(e, ast.Call) and isinstance(e.func, ast.Attribute):
+            args = tuple(a.value if isinstance(a, ast.Constant) else "?" for a in e.args[1:] if True) if e.func.attr == "get" \
+                else tuple(a.value if isinstance(a, ast.Constant) else "?" for a in e.args)
+            out.append((e.func.attr, args))
+            e = e.func.value
+        return list(reversed(out))
+    chains = [chain(c.args[0]) for c in floats]
+    for c, ch in zip(floats, chains):
+        ctx.check(ch == chains[0], "R11.4", gcf.qualname, c, loc(gcf, c),
+                  "this conversion factor is read as %s but the other one as %s: a factor written `10^6` is normalised for one "
+                  "and silently falls back to 1.0 for the other" % (ch, chains[0]), desc="factor parsed by %s" % (ch,))
+
+    # ---------------- R11.2
     entries = [tag.methods.get("value_as_default_unit"), tag.methods.get("default_unit"), conv, val]
     if any(e is None for e in entries):
         raise AnalysisError("R11.2 anchors vanished")
